@@ -13,6 +13,9 @@ def _crit(kind):
     n = len(TARGETS)
     if kind == "xy":
         return ("xy", [real(f"crit_max_x_{i}", 0, 200) for i in range(n)], [real(f"crit_max_y_{i}", 5, 200) for i in range(n)])
+    if kind == "xy_uuid":  # the frame's critical filter also names the critical ground truths
+        return ("xy_uuid", [real(f"crit_max_x_{i}", 0, 200) for i in range(n)], [real(f"crit_max_y_{i}", 5, 200) for i in range(n)],
+                ["g0"])
     return ("dist", [real(f"crit_max_d_{i}", 0, 200) for i in range(n)], [real(f"crit_min_d_{i}", 0, 50) for i in range(n)])
 
 
@@ -60,6 +63,9 @@ def accounting(frame, ego_q, n, m, policy, crit_kind, e_labels, g_labels, sym_th
             keep_res[k] = False
             continue
         g = pair_of.get(k)
+        if g is None and crit[0] == "xy_uuid":
+            keep_res[k] = False  # documented: with a uuid list only results of the listed ground truths are kept
+            continue
         keep_res[k] = L.And(c, crit_g[id(g)]) if g is not None else c
     parts["result_kept_iff_both_members_critical"] = L.And(*[L.Iff(k in surv, c) for k, c in keep_res.items()])
 
@@ -123,6 +129,8 @@ def obligations(pid, tier):
                                       e_labels=[CAR] if small else [CAR, PED], g_labels=[CAR, FP] if small else [CAR, PED, FP]))
     cases += [dict(c, pf_reversed=True) for c in cases if c["n"] + c["m"] <= 2 and c["frame"] == "base_link"
               and c["crit_kind"] == "xy"]
+    cases += [dict(c, crit_kind="xy_uuid") for c in cases if c["crit_kind"] == "xy" and c["policy"] == "default"
+              and c["frame"] == "base_link" and not c.get("pf_reversed") and c["n"] + c["m"] <= 3]
     # false-positive validation task (unpaired estimates are dropped by the matcher; no detection metrics)
     cases += [dict(c, task="fp_validation") for c in cases if c["crit_kind"] == "xy" and c["policy"] == "default"
               and not c.get("pf_reversed") and (c["n"], c["m"]) in ((1, 1), (2, 1), (1, 2))]
@@ -146,7 +154,8 @@ def meta(pid):
         "bounds": {"quick": "<= 2 estimates x <= 2 ground truths on fixed lanes with symbolic ego-relative x, labels "
                             "{car,pedestrian} / {car,pedestrian,false_positive} (2x2: {car}/{car,false_positive}); ego frame "
                             "and map frame (ego yaw atan(4/3), symbolic translation); critical filter x/y box or distance "
-                            "ring with symbolic per-label bounds; symbolic pass/fail thresholds; policies default/allow_any",
+                            "ring with symbolic per-label bounds, or x/y box plus a critical uuid list; symbolic pass/fail thresholds; "
+                            "policies default/allow_any; detection and false-positive-validation task",
                    "thorough": "up to 3x2 / 2x3; four ego poses"},
         "outside": ["objects of different size or orientation (plane distance then differs from centre distance; C06 covers "
                     "the score itself)", "more objects than the bound", "sequences of frames (C13)"],
